@@ -66,4 +66,31 @@ theorem D2_counterexample :
   simp [scan, scanLayer, scanLeaves, scanEnts, d2Lit, scanArgsOk, checkEmptyRange, lexLt, findLayer,
     cfgD2, route, routeFrom, linkArgs, padTo, memcmp, memcmpMin]
 
+/-- a well-formed tree (`Inv`) that no sequence of operations produces: the second leaf's lower
+    fence is the maximal tuple `(0xFF×8, link)`. The right-to-left descent routes by `(0xFF×8, 8)`,
+    which is below that fence, and ends in the first leaf. -/
+def r2lTree : Tree :=
+  [⟨[], [⟨none, 1, 0, false, [⟨⟨[97, 0, 0, 0, 0, 0, 0, 0], 1⟩, some ⟨[], 8⟩⟩]⟩,
+         ⟨some KT.max, 1, 0, false, [⟨KT.max, none⟩]⟩]⟩,
+   ⟨[255, 255, 255, 255, 255, 255, 255, 255], [⟨none, 1, 0, false, [⟨⟨[120, 0, 0, 0, 0, 0, 0, 0], 1⟩, some ⟨[], 8⟩⟩]⟩]⟩]
+
+theorem r2lTree_inv : Inv r2lTree := (checkInv_iff r2lTree).mp (by decide +kernel)
+
+private theorem r2l_scan : (scan cfgFixed r2lTree [] .inf [] .inf 1 true).tuples = [([97], ⟨[], 8⟩)] := by
+  simp [scan, scanLayer, scanLeaves, scanEnts, r2lTree, KT.max, scanArgsOk, checkEmptyRange, findLayer,
+    cfgFixed, descentKT, route, routeFrom, routeLeft, beforeLeft, withinRight, memcmp]
+
+private theorem r2l_spec :
+    scanSpec r2lTree [] .inf [] .inf 1 true = [([255, 255, 255, 255, 255, 255, 255, 255, 120], ⟨[], 8⟩)] := by
+  decide +kernel
+
+/-- `Inv` alone does not make right-to-left scans correct: with a maximal-tuple fence the
+    greatest key is missed (why `scan_spec` carries the hypothesis `NoMaxFence` for `r2l`). -/
+theorem r2l_max_fence_counterexample :
+    ∃ t : Tree, Inv t ∧ scanArgsOk [] .inf [] .inf 1 true = true ∧
+      (scan cfgFixed t [] .inf [] .inf 1 true).tuples ≠ scanSpec t [] .inf [] .inf 1 true := by
+  refine ⟨r2lTree, r2lTree_inv, by decide, ?_⟩
+  rw [r2l_scan, r2l_spec]
+  decide
+
 end Yak.Tree
